@@ -23,7 +23,8 @@ META = dict(
     note='Coq theorems about index-based, bounds-checked models of the loops (coq/model/PathUtils.v), tied to the C++ by exact '
          'comparison on all paths of <=5 (thorough <=6) points over a 4x4 lattice for every epsilon of the grid, open and closed, '
          'plus seeded longer paths with |coordinates| up to 2^40; the property clauses themselves are evaluated on the '
-         "implementation's outputs with predicates extracted from Coq.",
+         "implementation's outputs with predicates extracted from Coq. The models mirror clipper.h with the four C20 repairs "
+         '(RDP end handling, SimplifyPath 3-point paths and epsilon^2 clamp, TrimCollinear open 2-point path).',
     technique='Coq proof (models of the loops) + exact model/implementation correspondence + extracted specification predicates',
     category='proof')
 
@@ -97,7 +98,7 @@ def random_requests(ctx, n_cases):
         ctx.hist('random_len', '0-4' if n < 5 else '5-10' if n <= 10 else '11-40' if n <= 40 else '41+')
         ctx.hist('random_scale', 'x%d' % scale if scale < (1 << 20) else 'x2^%d' % int(round(math.log2(scale))))
         ps = fmt_path(p)
-        eps = r.choice(EPS_GRID + [scale * 0.7, scale * 1.5, scale * 3.0, 1e200, 1e-3, scale * 0.25])
+        eps = r.choice(EPS_GRID + [scale * 0.7, scale * 1.5, scale * 3.0, 1e200, 1e-3, scale * 0.25, 1.3407807929942597e154, float('inf')])
         what = r.below(10)
         if what < 3:
             reqs.append('TRIM %d %s' % (r.below(2), ps))
@@ -293,6 +294,8 @@ def vm_crosscheck(ctx, orc, reqs):
             return ('ErrOOB' if toks[pos] == 'ERR-OOB' else 'ErrFuel'), pos + 1
         s, pos = cpath(toks, pos)
         return 'Ok ' + s, pos
+    def cflt(tok):
+        return 'infinity' if tok == 'inf' else tok
     body = ['From Coq Require Import ZArith List Floats.', 'From Clip Require Import base.Geom base.FloatModel model.PathUtils.',
             'Import ListNotations.', 'Local Open Scope Z_scope.']
     for i, (q, o) in enumerate(zip(sample, outs)):
@@ -304,11 +307,11 @@ def vm_crosscheck(ctx, orc, reqs):
         elif t[0] == 'SIMP':
             ps, _ = cpath(t, 3)
             rs, _ = cres(ot, 0)
-            lhs = 'simplify_path %s (%s)%%float %s' % (ps, t[1], 'true' if t[2] != '0' else 'false')
+            lhs = 'simplify_path %s (%s)%%float %s' % (ps, cflt(t[1]), 'true' if t[2] != '0' else 'false')
         else:
             ps, _ = cpath(t, 2)
             rs, _ = cres(ot, 0)
-            lhs = 'rdp_path %s (%s)%%float' % (ps, t[1])
+            lhs = 'rdp_path %s (%s)%%float' % (ps, cflt(t[1]))
         body.append('Example x%d : %s = %s. Proof. vm_compute. reflexivity. Qed.' % (i, lhs, rs))
     f = os.path.join(ctx.work, 'XCheck.v')
     with open(f, 'w') as fh:
@@ -407,7 +410,9 @@ def run(ctx):
                        "implementation's output differs from its input (or for scalar leaves: always)" % (nmax, L, L, EPS_GRID))
     ctx.assumptions += [
         'int64 differences taken by IsCollinear/PerpendicDistFromLineSqrd do not overflow (|coordinates| <= 2^62); models use unbounded Z',
-        'epsilon >= 0 and not NaN (the quantifier of the property)',
+        'epsilon >= 0 and not NaN (the quantifier of the property); +inf and values whose square overflows are included',
+        'C20_rdp_bound assumes that no PerpendicDistFromLineSqrd value between vertices of the path is NaN (a NaN needs an overflowing '
+        'product, impossible for differences of int64 coordinates); the clause itself is evaluated on every generated input',
         'libm sin/cos are not modelled: Ellipse is compared modulo the two values the harness reads back (same libm call as the library)',
         'binary64 arithmetic of g++ -O1 -ffp-contract=off equals Coq primitive floats (self-tested on every run, FSELF cases)',
         'Print Assumptions: theorems that mention binary64 values depend on the PrimFloat/Uint63 primitives and the FloatAxioms of the Coq '
